@@ -1,0 +1,20 @@
+//go:build verif
+// +build verif
+
+package trie
+
+import "com.tuntun.rangers/node/src/common"
+
+// Verification hook (property C03): read-only view of what NodeDatabase.commit will follow from a
+// dirty node - childs(): the external references registered through Reference plus the hash
+// children inside the collapsed node. ok is false when the hash is not in the dirty cache.
+func (db *NodeDatabase) VerifChilds(hash common.Hash) (children []common.Hash, ok bool) {
+	db.lock.RLock()
+	defer db.lock.RUnlock()
+
+	n, ok := db.nodes[hash]
+	if !ok {
+		return nil, false
+	}
+	return n.childs(), true
+}
